@@ -489,7 +489,9 @@ def _closure_id_of(body, op):
     # `.map(&f)` with `let f = |x| ..`: a reference to a closure variable (possibly captured)
     if ty["s"].startswith("&") and _CLOSURE_BY_TYPE.get(ty["s"].lstrip("&").replace("mut ", "").strip()):
         return _CLOSURE_BY_TYPE[ty["s"].lstrip("&").replace("mut ", "").strip()]
-    if ty["s"].startswith("&"):
+    if ty["s"].startswith("&") or ty["s"].startswith("impl Fn") or not ty["s"].startswith(("std::", "core::", "alloc::", "(", "[")):
+        # (also a by-value callable parameter of an inlined generic helper: `f: impl FnOnce(..)`
+        #  or `f: F`, assigned once from the closure the caller wrote)
         cur = op["place"]["local"]
         for _ in range(6):
             if body["locals"][cur]["ty"].get("closure"):
@@ -629,6 +631,62 @@ def _single_assign(body, local):
                     return None
                 found = ("assign", s["rv"])
     return found
+
+
+def fold_constant_variant_switches(body):
+    """A switch on the discriminant of a local that is assigned exactly once, by an aggregate of
+    one variant, and never lent out mutably, has one outcome: it is replaced by a jump to that
+    arm (the `match origin` of a helper inlined into a caller that passes `Origin::Goal(..)`;
+    straight-line threading does not reach it when calls lie in between)."""
+    blocks = body["blocks"]
+    lent = set()
+    for b in blocks:
+        for s in b["stmts"]:
+            if s["k"] == "assign" and s["rv"]["k"] in ("ref", "raw_ptr") and (s["rv"].get("mut") in (True, "true") or s["rv"]["k"] == "raw_ptr"):
+                lent.add(s["rv"]["place"]["local"])
+    made = 0
+    for b in blocks:
+        if b["cleanup"]:
+            continue
+        t = b["term"]
+        if t["k"] != "switch" or t["discr"]["k"] not in ("copy", "move") or t["discr"]["place"]["proj"]:
+            continue
+        d = t["discr"]["place"]["local"]
+        q = None
+        for s in reversed(b["stmts"]):
+            if s["k"] == "assign" and s["place"]["local"] == d and not s["place"]["proj"]:
+                if s["rv"]["k"] == "discriminant" and not s["rv"]["place"]["proj"]:
+                    q = s["rv"]["place"]["local"]
+                break
+        if q is None:
+            continue
+        idx = None
+        for _ in range(6):
+            if q in lent or q <= body.get("arg_count", 0):
+                break
+            sd = _single_assign(body, q)
+            if sd is None or sd[0] != "assign":
+                break
+            rv = sd[1]
+            if rv["k"] == "use" and rv["op"]["k"] in ("copy", "move") and not rv["op"]["place"]["proj"]:
+                q = rv["op"]["place"]["local"]
+                continue
+            if rv["k"] == "aggregate" and rv["kind"].get("k") == "adt" and isinstance(rv["kind"].get("idx"), int) \
+                    and rv["kind"].get("adt") not in _known_adts():
+                idx = rv["kind"]["idx"]
+            break
+        if idx is None:
+            continue
+        # no store into a field of q either
+        if any(s["k"] == "assign" and s["place"]["local"] == q and s["place"]["proj"] for b2 in blocks for s in b2["stmts"]):
+            continue
+        tgt = t["otherwise"]
+        for v, dst in t["targets"]:
+            if int(v) == idx:
+                tgt = dst
+        b["term"] = {"k": "goto", "target": tgt, "span": t.get("span")}
+        made += 1
+    return made
 
 
 def _iter_source_local(body, op):
